@@ -15,7 +15,12 @@ import Driver.Util
     verc <0|1> <hex>         -> same, for a single component
 
   Section B (lint):
-    lint <opts> <rules> <schema>  -> clean=<0|1> others=<0|1> <RULE>@<hexfile>@<path>;…   (sorted, deduplicated)
+    lint <opts> <rules> <schema>  -> clean=<0|1> dirty=<RULE,…|-> <RULE>@<hexfile>@<path>;…   (sorted, deduplicated)
+  `clean` = `cleanB` of the configured rules; `dirty` = the configured rules whose Clean condition
+  (`cleanRule`: grammars, pairwise agreement, flags — NOT the model's own annotation list) fails, in
+  the order of <rules>.  The harness prints, from its side, the rules of the annotations that the
+  planting operator's DOCUMENTATION-level expectation names: the line compares the model's Clean
+  specification with the operator's intent, independently of `lint`.
   see Driver.C05.parseSchema for the schema grammar.
 -/
 namespace Driver.C05
@@ -228,10 +233,11 @@ def lintLine (optsS rulesS schemaS : String) : String :=
     let anns := lint opts rules w
     let strs := anns.map fun a => s!"{a.rule.id}@{enc (l2s a.file)}@{pathStr a.path}"
     let clean := if cleanB opts rules w then "1" else "0"
-    -- hypothesis of plant_exact_elem, evaluated: every configured rule that reports nothing is Clean
-    let quiet := rules.filter fun r => !(anns.any fun a => a.rule == r)
-    let others := if cleanB opts quiet w then "1" else "0"
-    s!"clean={clean} others={others} " ++ ";".intercalate (sortDedup strs)
+    -- hypothesis `cleanB` of the planting theorems, evaluated per rule on the Clean SPECIFICATION
+    -- (independent of `anns`): which configured rules are not Clean on this workspace
+    let dirty := rules.filter fun r => !cleanRule opts w r
+    let dirtyS := if dirty.isEmpty then "-" else ",".intercalate (dirty.map Rule.id)
+    s!"clean={clean} dirty={dirtyS} " ++ ";".intercalate (sortDedup strs)
   | _, _ => "bad-op"
 
 def handle : List String → String
